@@ -110,6 +110,13 @@ func runCheck(repo, verif, prop, tier string, verbose bool) int {
 		timeout = 60
 	}
 	discharge(res.obs, solveOpts{timeoutS: timeout, dir: tmp, jobs: 16, thorough: tier == "thorough"})
+	if d := os.Getenv("GVC_DUMPFAIL"); d != "" {
+		for _, o := range res.obs {
+			if o.vc != nil && !o.Cover && (o.Result != "unsat" || os.Getenv("GVC_DUMPALL") != "") {
+				os.WriteFile(filepath.Join(d, "fail_"+sanitize(o.Name)+".smt2"), []byte(o.query(true)), 0o644)
+			}
+		}
+	}
 	known := loadKnown(verif)
 
 	type failure struct {
